@@ -75,6 +75,7 @@ def _deep_chain(case):
     engine.tick(n)
     try:
         res = [f.name for f in FMCoreFeatures().execute(fm).get_result()]
+        engine.note(sorted(map(repr, res)))
     except Exception as exc:  # noqa: BLE001
         return [Fail('raises:%s' % type(exc).__name__, 'chain of %d features' % n)]
     want = ['N%d' % i for i in range(n)] if card == (1, 1) else ['N0']
@@ -90,6 +91,10 @@ def check(case):
     model = opscfg.resolve(case)
     if case[0] == 'SE':
         return opscfg.edit_history(model, FMCoreFeatures, judge)
+    if case[0] == 'SF':
+        return opscfg.failure_history(model, FMCoreFeatures, judge)
+    if case[0] == 'SO':
+        return opscfg.result_ownership(model, FMCoreFeatures, judge)
     fm, fails = cm.built(model)
     if fails:
         return fails
